@@ -30,7 +30,15 @@ Definition plain (n : Z) : bool := (n =? 0) || (n =? 1).
    req / resp: lengths of the request and response messages of the ping-pong rounds *)
 Record rpc := mkRpc {
   use : Z; wc : Z; wd : Z; acc : option (Z -> bool);
-  scp : Z; sdc : Z; setn : Z; rounds : list (Z * Z) }.
+  scp : Z; sdc : Z; setn : Z; rounds : list (Z * Z); mode : Z }.
+
+(* mode bits: 1 = the client sends PreparedMsg (Encode on the client stream, then SendMsg),
+   2 = the handler sends PreparedMsg (Encode after its SetSendCompressor call),
+   4 = unary: ClientConn.Invoke against a MethodDesc handler (one round).
+   Only bit 2 changes the behaviour: PreparedMsg.Encode compresses with the compressors
+   stored in the rpcInfo of the stream's context, which the server fills in when the stream
+   is created (server_default), before any SetSendCompressor. *)
+Definition prep_s (r : rpc) : bool := Z.testbit (mode r) 1.
 
 (* ---- client, creating the stream ---- *)
 
@@ -84,6 +92,11 @@ Definition server_send (reg : Z -> bool) (r : rpc) (rc : Z) : Z * Z * Z :=
 
 (* compress uses the encoding.Compressor when there is one, else the legacy one *)
 Definition pick (v0 v1 : Z) : Z := if negb (v1 =? 0) then v1 else v0.
+
+(* the compressor the server's messages are actually compressed with *)
+Definition server_codec (reg : Z -> bool) (r : rpc) (rc : Z) : Z :=
+  let '(v0, v1, _) := (if prep_s r then server_default reg r rc else server_send reg r rc) in
+  pick v0 v1.
 
 (* ---- client, receiving ---- *)
 
@@ -141,7 +154,8 @@ Definition run_rpc (reg : Z -> bool) (r : rpc) : word :=
         match client_decoder reg r ct with
         | None => obs_of cInternal 1 setres rc ct 1 0 [flag_of (client_codec r) l] []
         | Some d =>
-          let '(code, dq, dr, qs, fs) := play (client_codec r) (pick v0 v1) ct d (rounds r) in
+          let '(code, dq, dr, qs, fs) :=
+              play (client_codec r) (server_codec reg r rc) ct d (rounds r) in
           obs_of code 1 setres rc ct dq dr qs fs
         end
       end
@@ -150,7 +164,8 @@ Definition run_rpc (reg : Z -> bool) (r : rpc) : word :=
 (* ---- cases ----
    cfg []   (the registry of the driver is fixed: gzip = 2, x-va = 3, x-vb = 4; 5 = "x-unreg"
             exists only as legacy objects / as a name)
-   op [1; use; wc; wd; accmask; scp; sdc; setn; n; l1; m1; ...; ln; mn]
+   op [1; use; wc; wd; accmask; scp; sdc; setn; n; l1; m1; ...; ln; mn]         (mode 0)
+   op [2; mode; use; wc; wd; accmask; scp; sdc; setn; n; l1; m1; ...; ln; mn]
       accmask 0 = AcceptCompressors absent, else bit 1 gzip, bit 2 x-va, bit 4 x-vb *)
 Definition reg0 (n : Z) : bool := (n =? 2) || (n =? 3) || (n =? 4).
 
@@ -165,17 +180,30 @@ Fixpoint pairs (w : list Z) : option (list (Z * Z)) :=
   | _ => None
   end.
 
-Definition parse_op (w : word) : option rpc :=
+Definition parse_body (md : Z) (w : word) : option rpc :=
   match w with
-  | 1 :: u :: c :: d :: am :: sc :: sd :: sn :: n :: r =>
+  | u :: c :: d :: am :: sc :: sd :: sn :: n :: r =>
     match pairs r with
     | Some ps =>
       if (Z.of_nat (length ps) =? n) && (1 <=? n) && (0 <=? am) && (am <=? 7) &&
          negb (c =? 1) && negb (sc =? 1)   (* no legacy Compressor whose Type() is "identity" *)
-      then Some (mkRpc u c d (if am =? 0 then None else Some (mask_has am)) sc sd sn ps)
+      then Some (mkRpc u c d (if am =? 0 then None else Some (mask_has am)) sc sd sn ps md)
       else None
     | None => None
     end
+  | _ => None
+  end.
+
+Definition parse_op (w : word) : option rpc :=
+  match w with
+  | 1 :: b => parse_body 0 b
+  | 2 :: md :: b =>
+    if (0 <=? md) && (md <=? 4) then
+      match parse_body md b with
+      | Some r => if (md =? 4) && negb (Z.of_nat (length (rounds r)) =? 1) then None else Some r
+      | None => None
+      end
+    else None
   | _ => None
   end.
 
@@ -205,7 +233,13 @@ Fixpoint run (ops : list word) : option (list word) :=
       legacy compressor (repaired defect, /repo commit 6f92b96; kept as its own clause so
       that a regression is reported under this id)
    9  (statement deviation, finding class) legacy RPCCompressor: the server compresses with
-      it although the client neither advertised nor used it *)
+      it although the client neither advertised nor used it
+   10 (finding class) the handler sends PreparedMsg after a SetSendCompressor that changed the
+      send compressor: the flag rule of clause 2 and the completion rule of clause 11 for
+      that RPC (false when Encode still used the compressor of stream creation)
+   11 the RPC completes with OK and every response delivered unless the client named an
+      unregistered compressor, the request encoding is unsupported, AcceptCompressors
+      forbids the response encoding, or a flagged response cannot be decoded *)
 Fixpoint flag_rows (cl : Z) (enc : Z) (lens flags : list Z) (i : Z) : list (Z * Z * bool) :=
   match lens, flags with
   | l :: ls, f :: fs =>
@@ -218,10 +252,33 @@ Fixpoint flag_rows (cl : Z) (enc : Z) (lens flags : list Z) (i : Z) : list (Z * 
 Definition rows_req (r : rpc) (reqEnc : Z) (qs : list Z) : list (Z * Z * bool) :=
   flag_rows 1 reqEnc (map fst (rounds r)) qs 0.
 
-Definition rows_resp (r : rpc) (respEnc : Z) (fs : list Z) : list (Z * Z * bool) :=
-  if negb (scp r =? 0) && (setn r =? 1) && plain respEnc
+(* the class of clause 10: the handler sends PreparedMsg after a successful
+   SetSendCompressor that changed the stream's send compressor *)
+Definition f10 (reg : Z -> bool) (r : rpc) (reqEnc : Z) : bool :=
+  prep_s r && negb (setn r =? 0) && set_valid reg r (setn r) &&
+  negb (setn r =? snd (server_default reg r reqEnc)).
+
+Definition rows_resp (reg : Z -> bool) (r : rpc) (reqEnc respEnc : Z) (fs : list Z)
+  : list (Z * Z * bool) :=
+  if f10 reg r reqEnc then flag_rows 10 respEnc (map snd (rounds r)) fs 0
+  else if negb (scp r =? 0) && (setn r =? 1) && plain respEnc
   then map (fun f => (8, 0, f =? 0)) fs
   else flag_rows 2 respEnc (map snd (rounds r)) fs 0.
+
+(* the RPC completes (status OK, every response delivered) unless there is a reason the
+   property names: unregistered UseCompressor, unsupported request encoding, response
+   encoding not allowed by AcceptCompressors, or a flagged response the client cannot decode *)
+Definition rows_done (reg : Z -> bool) (r : rpc) (code reqEnc respEnc dr : Z) (fs : list Z)
+  : list (Z * Z * bool) :=
+  let reason :=
+    match client_send reg r with None => true | Some _ => false end ||
+    negb (server_accepts reg r reqEnc) ||
+    match client_decoder reg r respEnc with
+    | None => true
+    | Some d => existsb (fun f => f =? 1) fs && (plain respEnc || (d =? 0))
+    end in
+  [((if f10 reg r reqEnc then 10 else 11), 0,
+    reason || ((code =? 0) && (dr =? Z.of_nat (length (rounds r)))))].
 
 Definition rows_choice (reg : Z -> bool) (r : rpc) (reqEnc respEnc : Z) : list (Z * Z * bool) :=
   [((if negb (scp r =? 0) && (respEnc =? scp r) then 9 else 3), 0,
@@ -251,10 +308,11 @@ Definition rows_unsupp (reg : Z -> bool) (r : rpc) (code reached reqEnc respEnc 
 
 Definition clause_rows (reg : Z -> bool) (r : rpc) (code reached setres reqEnc respEnc dq dr : Z)
            (qs fs : list Z) : list (Z * Z * bool) :=
-  rows_req r reqEnc qs ++ rows_resp r respEnc fs ++ rows_choice reg r reqEnc respEnc ++
+  rows_req r reqEnc qs ++ rows_resp reg r reqEnc respEnc fs ++ rows_choice reg r reqEnc respEnc ++
   rows_set reg r reached setres ++
   rows_count r code dq dr (Z.of_nat (length qs)) (Z.of_nat (length fs)) ++
-  rows_unsupp reg r code reached reqEnc respEnc dq dr fs.
+  rows_unsupp reg r code reached reqEnc respEnc dq dr fs ++
+  rows_done reg r code reqEnc respEnc dr fs.
 
 Definition clause_rpc (reg : Z -> bool) (r : rpc) (o : word) : list (Z * Z * bool) :=
   match o with
@@ -282,7 +340,7 @@ Fixpoint clauses (ops obs : list word) : list (Z * Z * bool) :=
   end.
 
 Definition is_finding_clause (c : Z * Z * bool) : bool :=
-  (fst (fst c) =? 7) || (fst (fst c) =? 9).
+  (fst (fst c) =? 7) || (fst (fst c) =? 9) || (fst (fst c) =? 10).
 Definition holds_b (ops obs : list word) : bool :=
   forallb (fun c => is_finding_clause c || snd c) (clauses ops obs).
 
